@@ -506,7 +506,7 @@ CORPUS = {
               b'\x94\xa1a\x01\xa1h\x90', b'\x94\xc0\xc0\xc0\xc0', b'\x95\x00\x01\xa1h\x90\x01', b'\x92\x00\x01',
               b'\x94\x00\x01\xa1g\x93\x01\xa3abc\xb92020-01-02T03:04:05+99:00', b'\x94\x00\x01\xa1g\x91\x91\x01',
               b'\x94\x00\x01\xa1g\x81\xa1i\x01', b'\x94\x00\x01\xa1g\x81\xc4\x01i\x01', b'\x94\x00\x01\xa1g\x05',
-              b'\x94\x00\x01\xa1g\xa3abc', b'\x94\x00\x01\x81\xa9faultcode\xa1x\x90'],
+              b'\x94\x00\x01\xa1g\xa3abc', b'\x94\x00\x01\x81\xa9faultcode\xa1x\x90', b'\x94\x00\x01\xa1g\xc0'],
 }
 CORPUS['soap12'] = [b.replace(S11.encode(), S12.encode()) for b in CORPUS['soap11']]
 
